@@ -27,13 +27,18 @@ CONSTANTS Cap,      \* channel capacity (4 in the code)
           WSizes,   \* menu of Write sizes (incl. size classes around 64 KiB and "larger than anything
                     \* the channel could hold in pieces": a Write is ONE buffer whatever its size)
           RSizes,   \* menu of Read sizes
+          Vias,     \* write entry points: "Write", "WriteString", "io.WriteString", "bufio" (a
+                    \* bufio.Writer's WriteString + Flush).  They are ONE operation of the pipe: every
+                    \* entry point obeys the same contract, in particular after Close
           MaxOps,   \* bound on completed calls
           Atomic    \* TRUE: no call of the other end starts while a Read is in progress
 
 Ends == {1, 2}
 Other(e) == 3 - e
 NoRead == [on |-> FALSE, k |-> 0, n |-> 0, first |-> FALSE, dl |-> FALSE, arg |-> 0, from |-> 0]
-NoOp == [op |-> "none", e |-> 0, arg |-> 0, dl |-> FALSE, n |-> 0, errs |-> {""}, from |-> 0]
+NoOp == [op |-> "none", e |-> 0, arg |-> 0, dl |-> FALSE, n |-> 0, errs |-> {""}, from |-> 0, via |-> ""]
+\* a bufio.Writer makes no call at all for an empty string: not an entry point for size 0
+ValidVia(n, via) == via = "bufio" => n > 0
 
 VARIABLES
   q,       \* q[e]: sequence of buffers in the channel written by end e
@@ -63,24 +68,27 @@ MayStart(e) ==
   /\ ~rd[e].on
   /\ (Atomic => \A x \in Ends : ~rd[x].on)
 
+DoneVia(op, e, arg, dl, n, errs, from, via) ==
+  /\ last' = [op |-> op, e |-> e, arg |-> arg, dl |-> dl, n |-> n, errs |-> errs, from |-> from, via |-> via]
+  /\ nops' = nops + 1
 Done(op, e, arg, dl, n, errs, from) ==
-  /\ last' = [op |-> op, e |-> e, arg |-> arg, dl |-> dl, n |-> n, errs |-> errs, from |-> from]
+  /\ last' = [op |-> op, e |-> e, arg |-> arg, dl |-> dl, n |-> n, errs |-> errs, from |-> from, via |-> ""]
   /\ nops' = nops + 1
 
 \* pipeConn.Write(p), len(p) = n
-Write(e, n, dl) ==
-  /\ MayStart(e)
+Write(e, n, dl, via) ==
+  /\ MayStart(e) /\ ValidVia(n, via)
   /\ IF closed THEN
-       /\ Done("w", e, n, dl, 0, {"closed"}, wpos[e])
+       /\ DoneVia("w", e, n, dl, 0, {"closed"}, wpos[e], via)
        /\ UNCHANGED <<q, wpos, acked>>
      ELSE IF Len(q[e]) < Cap THEN
        /\ q' = [q EXCEPT ![e] = Append(@, [from |-> wpos[e], len |-> n])]
        /\ wpos' = [wpos EXCEPT ![e] = @ + n]
        /\ acked' = [acked EXCEPT ![e] = @ + n]
-       /\ Done("w", e, n, dl, n, {""}, wpos[e])
+       /\ DoneVia("w", e, n, dl, n, {""}, wpos[e], via)
      ELSE
        /\ dl                         \* full: waits unless the write deadline fires; nothing is queued
-       /\ Done("w", e, n, dl, 0, {"timeout"}, wpos[e])
+       /\ DoneVia("w", e, n, dl, 0, {"timeout"}, wpos[e], via)
        /\ UNCHANGED <<q, wpos, acked>>
   /\ UNCHANGED <<bb, rpos, closed, rd>>
 
@@ -131,7 +139,7 @@ Close(e) ==
   /\ UNCHANGED <<q, bb, wpos, rpos, rd, acked>>
 
 Next ==
-  \/ \E e \in Ends, n \in WSizes, dl \in BOOLEAN : Write(e, n, dl)
+  \/ \E e \in Ends, n \in WSizes, dl \in BOOLEAN, via \in Vias : Write(e, n, dl, via)
   \/ \E e \in Ends, k \in RSizes, dl \in BOOLEAN : ReadBegin(e, k, dl)
   \/ \E e \in Ends : ReadStep(e) \/ Close(e)
 
